@@ -185,6 +185,57 @@ impl Obj {
     pub fn sample_n(&self, n: usize) -> Vec<f64> {
         all_variants!(self, d => d.sample_n(n).v)
     }
+    /// further closed-form observables: ln_pdf of the continuous laws
+    pub fn extra(&self, x: f64) -> Vec<f64> {
+        match self {
+            // (Normal::cdf is left out: it is not among the observables the property names, and
+            // erf(NaN) recurses without end, so cdf of a sigma = 0 normal at x = mu aborts the process)
+            Obj::Normal(d) => vec![d.ln_pdf(x)],
+            Obj::Gamma(d) => vec![d.ln_pdf(x)],
+            Obj::Beta(d) => vec![d.ln_pdf(x)],
+            Obj::ChiSquared(d) => vec![d.ln_pdf(x)],
+            Obj::T(d) => vec![d.ln_pdf(x)],
+            Obj::Pareto(d) => vec![d.ln_pdf(x)],
+            Obj::Gumbel(d) => vec![d.ln_pdf(x)],
+            Obj::Exponential(d) => vec![d.ln_pdf(x)],
+            Obj::Uniform(d) => vec![d.ln_pdf(x)],
+            _ => vec![],
+        }
+    }
+    /// `Default::default()` of the law (a constructor like any other)
+    pub fn default_of(law: &str) -> Obj {
+        match law {
+            "Normal" => Obj::Normal(Normal::default()),
+            "Gamma" => Obj::Gamma(Gamma::default()),
+            "Beta" => Obj::Beta(Beta::default()),
+            "ChiSquared" => Obj::ChiSquared(ChiSquared::default()),
+            "T" => Obj::T(T::default()),
+            "Pareto" => Obj::Pareto(Pareto::default()),
+            "Gumbel" => Obj::Gumbel(Gumbel::default()),
+            "Exponential" => Obj::Exponential(Exponential::default()),
+            "Uniform" => Obj::Uniform(Uniform::default()),
+            "DiscreteUniform" => Obj::DiscreteUniform(DiscreteUniform::default()),
+            "Poisson" => Obj::Poisson(Poisson::default()),
+            "Binomial" => Obj::Binomial(Binomial::default()),
+            "Bernoulli" => Obj::Bernoulli(Bernoulli::default()),
+            _ => panic!("csim: unknown law {}", law),
+        }
+    }
+}
+
+/// what the integer-typed parameters become when a float is passed through update()/the harness
+/// cast (`as usize` / `as u64` / `as i64`: truncation toward zero, saturating, NaN -> 0)
+pub fn canon(law: &str, p: &[f64]) -> Vec<f64> {
+    let mut q = p.to_vec();
+    for (i, v) in q.iter_mut().enumerate() {
+        match (law, i) {
+            ("ChiSquared", 0) => *v = (*v as usize) as f64,
+            ("Binomial", 0) => *v = (*v as u64) as f64,
+            ("DiscreteUniform", _) => *v = (*v as i64) as f64,
+            _ => {}
+        }
+    }
+    q
 }
 
 /// probe points for pdf/pmf, a function of the model's current parameters only
@@ -218,8 +269,15 @@ struct Obs {
 
 fn observe(o: &Obj, law: &str, model: &[f64]) -> Obs {
     let grid = probe_grid(law, model);
+    let mut dens: Vec<Result<u64, ()>> = grid.iter().map(|x| catch(|| o.density(*x).to_bits()).map_err(|_| ())).collect();
+    for x in &grid {
+        match catch(|| o.extra(*x)) {
+            Ok(v) => dens.extend(v.iter().map(|y| Ok(y.to_bits()))),
+            Err(_) => dens.push(Err(())),
+        }
+    }
     Obs {
-        dens: grid.iter().map(|x| catch(|| o.density(*x).to_bits()).map_err(|_| ())).collect(),
+        dens,
         mean: catch(|| o.mean().to_bits()).map_err(|_| ()),
         var: catch(|| o.var().to_bits()).map_err(|_| ()),
     }
@@ -421,6 +479,10 @@ fn gen_bystanders(r: &mut Sm) -> Vec<ByOp> {
     ops
 }
 
+pub fn default_params_pub(law: &str) -> Vec<f64> {
+    default_params(law)
+}
+
 fn default_params(law: &str) -> Vec<f64> {
     match law {
         "Uniform" | "DiscreteUniform" => vec![0.0, 1.0],
@@ -461,7 +523,8 @@ impl Prop for C18 {
         let w_cmp = r.below(3);
         let p_invalid = *r.pick(&[0.0, 0.15, 0.3, 0.5]);
         let total = w_set + w_upd + w_new + w_clone + w_cmp;
-        let init = if r.chance(0.3) { default_params(law) } else { gen_vector(&mut r, law, &default_params(law), 0) };
+        let from_default = r.chance(0.08);
+        let init = if from_default || r.chance(0.3) { default_params(law) } else { gen_vector(&mut r, law, &default_params(law), 0) };
         let mut cur = init.clone();
         let nsteps = 1 + r.below(20) as usize;
         let mut steps = vec![];
@@ -494,8 +557,17 @@ impl Prop for C18 {
                         v[w] = *r.pick(&[f64::NAN, f64::INFINITY, f64::NEG_INFINITY]);
                     }
                 }
-                if valid(law, &v) {
-                    cur = v.clone();
+                if r.chance(0.15) {
+                    // a non-integral float for an integer-typed parameter: update() truncates it
+                    for w in 0..np {
+                        if is_int_param(law, w) {
+                            v[w] += *r.pick(&[0.5, 0.25, 0.999]);
+                        }
+                    }
+                }
+                let v = v;
+                if valid(law, &canon(law, &v)) {
+                    cur = canon(law, &v);
                 }
                 steps.push(Step::Update(fbs(&v)));
                 continue;
@@ -530,7 +602,7 @@ impl Prop for C18 {
         } else {
             (0, vec![])
         };
-        Case { law: law.to_string(), init: fbs(&init), steps, seeding, script, threads, schedule }
+        Case { law: law.to_string(), init: if from_default { vec![] } else { fbs(&init) }, steps, seeding, script, threads, schedule }
     }
 
     fn exec(case: &Case, st: &mut Stats) -> Option<Viol> {
@@ -643,7 +715,7 @@ impl Prop for C18 {
     }
     fn expected_counters(tier: Tier) -> Vec<String> {
         let mut v: Vec<String> = [
-            "step.nonfinite", "step.set.valid", "step.set.invalid", "step.update.valid", "step.update.invalid",
+            "step.nonfinite", "step.default_ctor", "step.set.valid", "step.set.invalid", "step.update.valid", "step.update.invalid",
             "step.new.valid", "step.new.invalid", "step.clone", "step.compare", "outcome.rejected",
             "outcome.accepted", "by.New", "by.Set", "by.Update", "by.Clone", "by.Drop", "by.Density",
             "fault.reject", "fault.partial", "resync.after_partial", "compare.fresh_thread", "compare.bulk",
@@ -700,9 +772,12 @@ fn compare_full(subject: &Obj, law: &str, params: &[f64], seed: u64, k: usize, s
     let so = observe(subject, law, params);
     let to = observe(&twin, law, params);
     if so.dens != to.dens {
-        let i = so.dens.iter().zip(&to.dens).position(|(a, b)| a != b).unwrap();
-        let x = probe_grid(law, params)[i];
-        return Err(("stale_density".into(), format!("pdf/pmf({}) differs from a fresh {}({:?}): {:?} vs {:?}", x, law, params, so.dens[i].map(f64::from_bits), to.dens[i].map(f64::from_bits))));
+        let i = so.dens.iter().zip(&to.dens).position(|(a, b)| a != b).unwrap_or(0);
+        let g = probe_grid(law, params);
+        let x = g[if i < g.len() { i } else { ((i - g.len()) / (so.dens.len() - g.len()).max(1).min(2).max(1)).min(g.len() - 1) }];
+        let what = if i < g.len() { "pdf/pmf" } else { "ln_pdf/cdf" };
+        let _ = what;
+        return Err(("stale_density".into(), format!("pdf/pmf/ln_pdf({}) differs from a fresh {}({:?}): {:?} vs {:?}", x, law, params, so.dens[i].map(f64::from_bits), to.dens[i].map(f64::from_bits))));
     }
     if so.mean != to.mean {
         return Err(("stale_mean".into(), format!("mean differs from a fresh {}({:?}): {:?} vs {:?}", law, params, so.mean.map(f64::from_bits), to.mean.map(f64::from_bits))));
@@ -759,7 +834,11 @@ fn exec_history(case: &Case, st: &mut Stats) -> Option<Viol> {
     let mut fired_any = 0u64;
     let mut mutations = 0u64;
     let mk = |check: &str, class: &str, op: &str, detail: String| Some(Viol::new(check, class, detail).k("law", law).k("op", op));
-    let init: Vec<f64> = unfb(&case.init);
+    let from_default = case.init.is_empty();
+    let init: Vec<f64> = if from_default { default_params(law) } else { unfb(&case.init) };
+    if from_default {
+        st.inc("step.default_ctor");
+    }
     let finish = |st: &mut Stats, h: &mut H64, dh: &H64, v: Option<Viol>, mutations: u64| {
         let draws = alea::sim::draws();
         st.add("rng_draws", draws);
@@ -776,7 +855,7 @@ fn exec_history(case: &Case, st: &mut Stats) -> Option<Viol> {
         // (only reachable through a hand-edited replay file)
         return finish(st, &mut h, &dh, None, 0);
     }
-    let mut subject = match catch(|| Obj::new(law, &init)) {
+    let mut subject = match catch(|| if from_default { Obj::default_of(law) } else { Obj::new(law, &init) }) {
         Ok(o) => o,
         Err(m) => {
             let v = mk("valid_accepted", "valid_rejected", "new", format!("{}::new({:?}) panicked: {}", law, init, m));
@@ -963,13 +1042,13 @@ fn exec_history(case: &Case, st: &mut Stats) -> Option<Viol> {
                     match step {
                         Step::New(p) | Step::Update(p) => {
                             let p = unfb(p);
-                            if p.len() == np { Some(p) } else { None }
+                            if p.len() == np { Some(canon(law, &p)) } else { None }
                         }
                         Step::Set(w, v) => {
                             if *w < np {
                                 let mut c = m.clone();
                                 c[*w] = v.0;
-                                Some(c)
+                                Some(canon(law, &c))
                             } else {
                                 None
                             }
@@ -1150,7 +1229,7 @@ fn thread_script(law: &str, init: &[f64], steps: &[Step], tid: usize, shared: &O
 
 fn exec_threads(case: &Case, st: &mut Stats) -> Option<Viol> {
     let law = case.law.clone();
-    let init = unfb(&case.init);
+    let init = if case.init.is_empty() { default_params(&case.law) } else { unfb(&case.init) };
     let k = case.threads.clamp(2, 4);
     st.inc("thread.scenarios");
     st.inc(&format!("law.{}", law));
